@@ -296,7 +296,7 @@ def _main(args, pid, tier, seed, t0, mod, builds, scratch):
             print("  oracle=%s mechanism=%s build=%s" % (v.get("oracle"), mech, v.get("build")))
             det = v.get("detail")
             if isinstance(det, dict):
-                det = {k: w for k, w in det.items() if k not in ("program", "base_program")}
+                det = {k: w for k, w in det.items() if k not in ("program", "base_program", "shrunk_program") or (k == "shrunk_program" and len(json.dumps(w)) < 700)}
             print("  detail: %s" % (json.dumps(det, default=repr)[:900],))
         exit_code = 1
     elif inconclusive:
